@@ -197,7 +197,7 @@ func (m *model) importedRefOwner(h int) int {
 func (m *model) ownerOf(s step) int {
 	switch s.Src {
 	case "func":
-		if s.K >= 2 {
+		if s.K == 2 {
 			return m.importedRefOwner(s.Inst)
 		}
 		return s.Inst
@@ -862,9 +862,9 @@ func genStep(t *rapid.T, m *model, excluded *int) (s step, ok bool) {
 		s.Src = rapid.SampledFrom(srcs).Draw(t, "src")
 		switch s.Src {
 		case "func":
-			ks := []int{0, 1, 2}
+			ks := []int{0, 1, 2, 3, 3} // 3: the function that traps
 			if m.insts[s.Inst].impFrom >= 0 {
-				ks = []int{0, 1, 2, 2, 2}
+				ks = []int{0, 1, 2, 2, 2, 3, 3}
 			}
 			s.K = rapid.SampledFrom(ks).Draw(t, "k")
 		case "slot":
